@@ -179,6 +179,8 @@ class RsEmitter:
             return "diplomat_runtime::DiplomatOption<%s>" % self.rs_plain_ty(t[1])
         if k in ("slice", "str"):
             return self.view_ty(t)[0]
+        if k == "oref" and not t[4]:
+            return ("&mut %s" if t[2] else "&%s") % t[1]
         raise Unsupported(t)
 
     def callback(self, t, v, pre, post, m, pname):
